@@ -268,6 +268,20 @@ def stepLine (line : String) : String :=
         Events.record st.1 st.2.1 dup b (st.2.2.map (fun e => (e.1, ({ root := e.2, success := true, gm := 0, gc := 0, gp := 0, fields := [], direction := 0, terminal := false } : Events.Probe Float))))) b0
       showList (fun (e : Nat × Float) => s!"{e.1}@{showFloatBits e.2}") b.events
     | _, _, _ => bad
+  -- stab <name> <re z> <im z> : R(z) = P/Q of the generated certificate at a complex rational point (exact)
+  | ["stab", name, re, im] =>
+    match Gen.allCerts.find? (·.name == name), parseRat? re, parseRat? im with
+    | some C, some x, some y =>
+      let sc : Rat := ((2 ^ C.K : Nat) : Rat)
+      let wr := x / sc
+      let wi := y / sc
+      let ev (p : Stability.Poly) : Rat × Rat := List.foldr (fun (c : Int) (acc : Rat × Rat) => ((c : Rat) + wr * acc.1 - wi * acc.2, wr * acc.2 + wi * acc.1)) (0, 0) p
+      let P := ev C.P
+      let Q := ev C.Q
+      let d := Q.1 * Q.1 + Q.2 * Q.2
+      if d == 0 then "pole" else
+      s!"{showRat ((P.1 * Q.1 + P.2 * Q.2) / d)} {showRat ((P.2 * Q.1 - P.1 * Q.2) / d)}"
+    | _, _, _ => bad
   -- dense <backward 0/1> <q> <tEval> : find_interval / find_interval_vec
   | ["dense", b, q, ts] =>
     match parseFloatBits? q, parseList? parseFloatBits? ts with
